@@ -53,13 +53,20 @@ func VerifC14Roster() {
 	vAssume(r0 >= 0 && r0 <= 255 && r1 >= 0 && r1 <= 255 && r2 >= 0 && r2 <= 255)
 
 	vAssert(!alphaC("addNextEpochNodes", cid14, 1, c), "C14/vector-1-refused-before-vector-0-exists")
-	vAssume(alphaC("addNextEpochNodes", cid14, 0, a))
+	// like every other harness (DESIGN.md 2.9): the first add and the first commit by the Alphabet are
+	// required successes, not assumptions, so a tree on which the Alphabet cannot update the roster is
+	// reported instead of making everything below vacuous
+	added := alphaC("addNextEpochNodes", cid14, 0, a)
+	vRequire(added, "alphabet-adds-to-the-roster")
+	vAssume(added)
 	vAssume(alphaC("addNextEpochNodes", cid14, 0, b))
 	vAssert(len(nodesOf(0)) == 0, "C14/pending-roster-invisible-before-commit")
 	if n1+n2 > 0 {
 		vAssume(alphaC("addNextEpochNodes", cid14, 1, c))
 	}
-	vAssume(alphaC("commitContainerListUpdate", cid14, []any{r0, r1}))
+	committed := alphaC("commitContainerListUpdate", cid14, []any{r0, r1})
+	vRequire(committed, "alphabet-commits-the-roster")
+	vAssume(committed)
 	vCover("first-commit")
 	vAssert(sameKeys(nodesOf(0), append(append([]any{}, a...), b...)), "C14/nodes-are-what-was-added-in-submission-order")
 	if n1+n2 > 0 {
